@@ -3,8 +3,13 @@ package sftp_test
 // C04 — connection loss fails every call and hangs none (fault enumeration).
 
 import (
+	"bytes"
+	"flag"
 	"fmt"
+	"os"
 	"sort"
+	"strconv"
+	"sync"
 	"testing"
 
 	sftp "github.com/pkg/sftp"
@@ -360,9 +365,146 @@ func vfRunC04One(ctx *vfCtx, c vfCaseC04One) {
 	ctx.NonTrivial()
 }
 
+// ---- storm: callers keep registering requests while the receiver shuts down -----------------
+
+type vfCaseC04Storm struct {
+	Opts    vfOpts
+	Workers [][]string // per goroutine: Stat | ReadAtSmall | ReadAtBig | WriteAt | ReadDir
+	CutAt   int        // byte offset of the server->client stream at which it ends
+	AsErr   bool
+	Window  int
+	Order   []int
+}
+
+func vfGenC04Storm(t *rapid.T) vfCaseC04Storm {
+	c := vfCaseC04Storm{Opts: vfGenSmallOpts(t)}
+	ng := rapid.IntRange(2, 6).Draw(t, "workers")
+	for g := 0; g < ng; g++ {
+		c.Workers = append(c.Workers, rapid.SliceOfN(rapid.SampledFrom([]string{"Stat", "Stat", "ReadAtSmall", "ReadAtBig", "WriteAt", "ReadDir"}), 2, 12).Draw(t, "prog"))
+	}
+	c.CutAt = rapid.IntRange(40, 3000).Draw(t, "cutat")
+	c.AsErr = rapid.Bool().Draw(t, "aserr")
+	c.Window = rapid.SampledFrom([]int{1, 2, 4, 8}).Draw(t, "window")
+	c.Order = rapid.SliceOfN(rapid.IntRange(0, 7), 1, 8).Draw(t, "order")
+	return c
+}
+
+func vfRunC04Storm(ctx *vfCtx, c vfCaseC04Storm) {
+	baseline := vfPkgGoroutineIDs()
+	s, err := vfStartSession(c.Opts, func(p *vfPeer, l *vfLink) {
+		p.window, p.order = c.Window, c.Order
+		l.S2C.cut = int64(c.CutAt)
+		if c.AsErr {
+			l.S2C.cutErr = errVfCut
+		}
+	})
+	if err != nil {
+		// the cut fell into the handshake
+		vfEndSession(ctx, "C04/storm/handshake", s, baseline)
+		return
+	}
+	fr, e1 := s.c.Open("/file")
+	fw, e2 := s.c.OpenFile("/victim", os.O_RDWR)
+	mp := c.Opts.MaxPacket
+	type bad struct{ key, msg string }
+	bads := make(chan bad, 64)
+	var dones []<-chan struct{}
+	failedCalls := 0
+	var failedMu sync.Mutex
+	for g, prog := range c.Workers {
+		g, prog := g, prog
+		d, _ := vfCall(func() (string, error) {
+			lost := false
+			for k, m := range prog {
+				var err error
+				switch m {
+				case "Stat":
+					var fi os.FileInfo
+					fi, err = s.c.Stat("/probe")
+					if err == nil && fi.Size() != 5 {
+						bads <- bad{"C04/storm/wrong-result/Stat", fmt.Sprintf("worker %d call %d: Stat(/probe).Size=%d with nil error", g, k, fi.Size())}
+					}
+				case "ReadAtSmall", "ReadAtBig":
+					if e1 != nil {
+						err = e1
+						break
+					}
+					n := 5
+					if m == "ReadAtBig" {
+						n = 2*mp + 3
+					}
+					b := make([]byte, n)
+					var got int
+					got, err = fr.ReadAt(b, 1)
+					if err == nil && (got != n || !bytes.Equal(b, vfPRFBytes(vfFileSeed, 1, n))) {
+						bads <- bad{"C04/storm/wrong-result/" + m, fmt.Sprintf("worker %d call %d: wrong bytes with nil error", g, k)}
+					}
+				case "WriteAt":
+					if e2 != nil {
+						err = e2
+						break
+					}
+					_, err = fw.WriteAt(vfPRFBytes(uint32(g), 0, mp+1), int64(g*4*mp))
+				case "ReadDir":
+					var fis []os.FileInfo
+					fis, err = s.c.ReadDir("/dir")
+					if err == nil && len(fis) != 4 {
+						bads <- bad{"C04/storm/wrong-result/ReadDir", fmt.Sprintf("worker %d call %d: %d entries with nil error", g, k, len(fis))}
+					}
+				}
+				if err != nil {
+					lost = true
+					failedMu.Lock()
+					failedCalls++
+					failedMu.Unlock()
+				} else if lost && m != "ReadDir" {
+					// once a call of this goroutine has failed because the connection is gone, a later one cannot succeed
+					bads <- bad{"C04/storm/success-after-loss/" + m, fmt.Sprintf("worker %d call %d (%s) succeeded after an earlier call of the same goroutine had failed", g, k, m)}
+				}
+			}
+			return "", nil
+		})
+		dones = append(dones, d)
+	}
+	for g, d := range dones {
+		if !vfAwait(ctx, d, fmt.Sprintf("storm worker %d", g)) {
+			ctx.Failf("C04/storm/hang", "worker %d never returns (cut at %d)\n%s", g, c.CutAt, vfDumpRelevant())
+		}
+	}
+	select {
+	case b := <-bads:
+		ctx.Failf(b.key, "%s (stream cut at byte %d)", b.msg, c.CutAt)
+	default:
+	}
+	if s.link.S2C.Delivered() >= int64(c.CutAt) {
+		// the connection is gone: every new call must fail
+		dd, r := vfCall(func() (string, error) { _, err := s.c.Stat("/probe"); return "", err })
+		if !vfAwait(ctx, dd, "Stat after loss") {
+			ctx.Failf("C04/storm/hang-after-loss", "a Stat issued after the connection was lost never returns\n%s", vfDumpRelevant())
+		}
+		if r.Err == nil {
+			ctx.Failf("C04/storm/no-error-after-loss", "a Stat issued after the stream had ended at byte %d succeeded", c.CutAt)
+		}
+		if failedCalls > 0 {
+			ctx.NonTrivial()
+			ctx.Class("storm-calls-failed")
+		}
+	}
+	vfEndSession(ctx, "C04/storm", s, baseline)
+}
+
 func TestVerifC04(t *testing.T) {
 	t.Run("enum", func(t *testing.T) {
 		vfDriveSub(t, "enum", vfProp[vfCaseC04]{ID: "C04", Gen: vfGenC04, Run: vfRunC04})
+	})
+	t.Run("storm", func(t *testing.T) {
+		restore := vfScaleChecks(1)
+		defer restore()
+		if f := flag.Lookup("rapid.checks"); f != nil {
+			n, _ := strconv.Atoi(f.Value.String())
+			flag.Set("rapid.checks", strconv.Itoa(n*15))
+		}
+		vfDriveSub(t, "storm", vfProp[vfCaseC04Storm]{ID: "C04", Gen: vfGenC04Storm, Run: vfRunC04Storm})
 	})
 	t.Run("one", func(t *testing.T) {
 		defer vfScaleChecks(1)()
